@@ -28,8 +28,19 @@ def main():
         if type(e).__name__ != "ControllerError":
             if not isinstance(e, Exception):
                 raise
-            # machinery failure: not evidence of anything; fail loudly without a VIOLATION line
             traceback.print_exc()
+            repo = os.path.realpath(os.environ.get("VERIF_REPO", "/repo")) + os.sep
+            frames = [f.filename for f in traceback.extract_tb(e.__traceback__)]
+            if any(os.path.realpath(f).startswith(repo) for f in frames):
+                # an exception came out of the LIBRARY into a driver that does not expect one (it never does on the
+                # tree the driver was written for): the implementation can no longer be run through the scenarios
+                # the correspondence is made of
+                chk.tie_broken("driver: an exception escaped from the library into the harness",
+                               {"error": repr(e), "traceback": traceback.format_exc()[-3000:]})
+                for k in ("obligations", "discharged", "evaluations"):
+                    chk.cov.setdefault(k, 0)
+                sys.exit(chk.finish())
+            # machinery failure: not evidence of anything; fail loudly without a VIOLATION line
             print(f"[{a.pid}] CHECK-ERROR (machinery failure, no verdict)")
             sys.exit(2)
         # the thread controller could not drive the implementation through a schedule (a thread hung in an
